@@ -54,6 +54,9 @@ func HandledWithMessage(err error, msg string) error {
 // This can be used e.g. to hide message details or to prevent
 // downstream code to make assertions on the message's contents.
 func HandledWithSafeMessage(err error, msg redact.RedactableString) error {
+	if err == nil {
+		return nil
+	}
 	return &barrierErr{maskedErr: err, smsg: msg}
 }
 
